@@ -75,6 +75,13 @@ Proof. exact insert_none_source_inv. Qed.
 Theorem C10_remove_source_is_model : forall (id : N) (s : slots), gen_ChannelSlots_remove ext_st_model (enc s) (VN id) = (enc (snd (remove id s)), match fst (remove id s) with | RRemoved true => VC "Some" [VC "slot" [VN id]] | _ => VC "None" [] end).
 Proof. exact remove_source_is_model. Qed.
 
+(* C10 AS A THEOREM ABOUT THE TRANSLATED CODE: any sequence of open(Some(id)) / open(None) / close run through the translated
+   ChannelSlots::insert / remove (Gen/SrcSlots.v), from any table satisfying the invariant, gives result by result what the
+   model gives and ends in the model's table - so everything C10_step / C10_run state (every result allowed by the abstract
+   set of open ids, no panic, the counter loop terminates) holds of the translated code. *)
+Theorem C10_run_source_is_model : forall (me : val) (ops : list op) (s : slots), Inv s -> forallb is_open_close ops = true -> grun me (enc s) ops = (map (fun '(o, r) => enc_step_res o r) (combine ops (fst (run s ops))), enc (snd (run s ops))).
+Proof. exact run_source_is_model. Qed.
+
 (* non-vacuity: the witnesses of the three repaired defects run through the model *)
 Example C10_example :
   fst (run (new_slots 2) [OpenSome 0; OpenSome 2; Close 2; OpenNone; OpenNone; OpenNone]) =
@@ -105,6 +112,8 @@ Check C10_insert_none_source_is_model : forall (ok : bool) (s : slots) (me : val
 Check C10_insert_none_source_inv : forall (s : slots) (me : val), Inv s -> gen_ChannelSlots_insert (ext_model true) ext_st_model (scan_fuel s) (enc s) (VC "None" []) me = (enc (snd (insert_none true s)), enc_res (fst (insert_none true s))).
 Check C10_remove_source_is_model : forall (id : N) (s : slots), gen_ChannelSlots_remove ext_st_model (enc s) (VN id) = (enc (snd (remove id s)), match fst (remove id s) with | RRemoved true => VC "Some" [VC "slot" [VN id]] | _ => VC "None" [] end).
 
+Check C10_run_source_is_model : forall (me : val) (ops : list op) (s : slots), Inv s -> forallb is_open_close ops = true -> grun me (enc s) ops = (map (fun '(o, r) => enc_step_res o r) (combine ops (fst (run s ops))), enc (snd (run s ops))).
+
 Print Assumptions C10_step.
 Print Assumptions C10_run.
 Print Assumptions C10_allowed_excludes.
@@ -117,3 +126,4 @@ Print Assumptions C10_insert_none_source_is_model.
 Print Assumptions C10_insert_none_source_inv.
 Print Assumptions C10_remove_source_is_model.
 Print Assumptions slots_source_example.
+Print Assumptions C10_run_source_is_model.
